@@ -254,7 +254,13 @@ func (r *runner) run() int {
 		}
 	}
 	ev.finish(time.Since(t0), r.prog.LoadSeconds)
-	if err := ev.write(filepath.Join(r.verif, "evidence", r.prop+".json")); err != nil {
+	evPath := filepath.Join(r.verif, "evidence", r.prop+".json")
+	if r.repo != "/repo" || r.only != "" {
+		// scratch runs (mutation worktrees, single harness) do not overwrite the registered evidence
+		evPath = filepath.Join(os.TempDir(), fmt.Sprintf("symgo-evidence-%s-%d.json", r.prop, os.Getpid()))
+		defer os.Remove(evPath)
+	}
+	if err := ev.write(evPath); err != nil {
 		fmt.Fprintln(os.Stderr, "evidence:", err)
 		return 2
 	}
@@ -275,15 +281,20 @@ type knownFindings struct{ list []knownFinding }
 
 func loadKnownFindings(p string) *knownFindings {
 	k := &knownFindings{}
-	data, err := os.ReadFile(p)
-	if err != nil {
-		return k
-	}
-	var f struct {
-		Findings []knownFinding `json:"findings"`
-	}
-	if json.Unmarshal(data, &f) == nil {
-		k.list = f.Findings
+	files := []string{p}
+	more, _ := filepath.Glob(filepath.Join(filepath.Dir(p), "known_findings.d", "*.json"))
+	files = append(files, more...)
+	for _, fp := range files {
+		data, err := os.ReadFile(fp)
+		if err != nil {
+			continue
+		}
+		var f struct {
+			Findings []knownFinding `json:"findings"`
+		}
+		if json.Unmarshal(data, &f) == nil {
+			k.list = append(k.list, f.Findings...)
+		}
 	}
 	return k
 }
